@@ -19,6 +19,17 @@ fn bytes_of(v: &Value) -> Vec<u8> {
 pub fn exec<T: Message + Default + PartialEq + std::fmt::Debug>(req: &Value) -> Value {
     let op = req["op"].as_str().unwrap_or("roundtrip").to_string();
     let r = catch_unwind(AssertUnwindSafe(|| -> Value {
+        if op == "budget" {
+            // the recursion-budget events (hook verif_budget) of decoding `input`
+            let input = bytes_of(&req["input"]);
+            pilota::prost::encoding::verif_budget::start();
+            let r = T::decode(&input[..]);
+            let ev: Vec<Value> = pilota::prost::encoding::verif_budget::take()
+                .into_iter()
+                .map(|(chk, c)| json!([if chk { "chk" } else { "ent" }, c]))
+                .collect();
+            return json!({"ok": true, "decoded": r.is_ok(), "ev": ev, "err": r.err().map(|e| format!("{e}")).unwrap_or_default()});
+        }
         let x: T = match op.as_str() {
             "merge" => {
                 let a = bytes_of(&req["a"]);
